@@ -79,6 +79,11 @@ def run(chk):
                       "isinstance(v, float) alone (numpy float32 and integer coordinates are not instances of float and would fall to another format)", 1)
     if chk.want("R16.7"):
         r16_7(chk, sdf, xyz)
+    chk.rule("R16.8", "the element symbols of a file come back as the elements that were written: the lookup both readers go through resolves a "
+                      "symbol by its whole normalised text, and the tables behind it are consistent (= C17 R17.2, R17.4, R17.5)", 10)
+    if chk.want("R16.8"):
+        from ..inherit import inherit
+        inherit(chk, "R16.8", "c17", ["R17.2", "R17.4", "R17.5"])
     chk.assume("values fit their fixed-width fields (the property restricts coordinates to the representable range)")
     chk.assume("bond perception, numeric rounding to the written precision are not decided")
 
